@@ -5,7 +5,9 @@ package composite
 
 import (
 	"context"
+	"encoding/json"
 	"fmt"
+	"reflect"
 	"net/http"
 	"sort"
 	"sync"
@@ -139,6 +141,7 @@ type ctlSpec struct {
 	Kids             []kidSpec         `json:"kids"`
 	SSA              bool              `json:"ssa"`
 	FieldPaths       []string          `json:"fieldPaths"`
+	Customize        bool              `json:"customize"`
 }
 
 func (s *ctlSpec) compositeController() *v1alpha1.CompositeController {
@@ -180,6 +183,9 @@ func (s *ctlSpec) compositeController() *v1alpha1.CompositeController {
 	if s.Finalize {
 		hooks.Finalize = mk("finalize")
 	}
+	if s.Customize {
+		hooks.Customize = mk("customize")
+	}
 	cc.Spec.Hooks = hooks
 	return cc
 }
@@ -202,8 +208,21 @@ func (w *cworld) listRevisions() []map[string]interface{} {
 }
 
 type builtPC struct {
-	pc    *parentController
-	queue *vh.RecQueue
+	pc          *parentController
+	queue       *vh.RecQueue
+	revIndexer  cache.Indexer
+	revSnapshot []string
+}
+
+// revDump serialises the typed ControllerRevisions held by the lister's indexer.
+func (b *builtPC) revDump() []string {
+	var out []string
+	for _, o := range b.revIndexer.List() {
+		data, _ := json.Marshal(o)
+		out = append(out, string(data))
+	}
+	sort.Strings(out)
+	return out
 }
 
 var ctlCounter int
@@ -246,7 +265,9 @@ func (w *cworld) buildPC(s *ctlSpec) (*builtPC, error) {
 			time.Sleep(200 * time.Microsecond)
 		}
 	}
-	return &builtPC{pc: pc, queue: q}, nil
+	bp := &builtPC{pc: pc, queue: q, revIndexer: revIndexer}
+	bp.revSnapshot = bp.revDump()
+	return bp, nil
 }
 
 func (b *builtPC) close() {
@@ -273,6 +294,7 @@ type roundRec struct {
 	Queue         []vh.QueueOp
 	PanicMsg      string
 	Key           string
+	CacheMutated  string // "" or which cached object changed during the sync
 }
 
 func resKey(resource, apiVersion string) string { return resource + "." + apiVersion }
@@ -325,6 +347,32 @@ func (w *cworld) runSync(s *ctlSpec, b *builtPC, key string) *roundRec {
 		rec.PanicMsg = lastSyncErrors[0]
 	}
 	lastSyncErrorsMu.Unlock()
+	// C17 oracle: nothing a sync does may change an object held in the shared caches
+	if p, err := common.GetObject(b.pc.parentInformer, ns, name); err == nil && rec.CacheParent != nil {
+		if !reflect.DeepEqual(p.Object, rec.CacheParent) {
+			rec.CacheMutated = "parent"
+		}
+	}
+	for _, k := range s.Kids {
+		for gvr, ci := range b.pc.childInformers {
+			if gvr.Resource == k.Resource && gvr.GroupVersion().String() == k.APIVersion {
+				var objs []map[string]interface{}
+				for _, o := range ci.Informer().GetIndexer().List() {
+					objs = append(objs, o.(interface{ UnstructuredContent() map[string]interface{} }).UnstructuredContent())
+				}
+				sort.Slice(objs, func(i, j int) bool { return objKey(objs[i]) < objKey(objs[j]) })
+				if !reflect.DeepEqual(objs, rec.CacheChildren[resKey(k.Resource, k.APIVersion)]) && !(len(objs) == 0 && len(rec.CacheChildren[resKey(k.Resource, k.APIVersion)]) == 0) {
+					rec.CacheMutated = "child " + k.Kind
+				}
+			}
+		}
+	}
+	if b.revSnapshot != nil {
+		now := b.revDump()
+		if !reflect.DeepEqual(now, b.revSnapshot) {
+			rec.CacheMutated = "ControllerRevision"
+		}
+	}
 	rec.Queue = b.queue.Snapshot()
 	if rec.Result != "panic" {
 		rec.Result = "done"
